@@ -53,7 +53,7 @@ ASSUMPTIONS = [
 # family -> (K quick, K thorough, one task per time?)
 FAMILIES = {      # heavy families first (load balance); inside a family the enumeration is simplest-first
     "Guderley": (1, 2, True), "GenEOS": (1, 2, True), "GenEOS_table": (2, 2, True), "Sedov": (1, 2, True), "RMTV": (1, 2, False),
-    "BBNoh": (4, 4, False), "IGEOS": (1, 2, False), "IGEOS_table": (2, 2, False),
+    "BBNoh": (4, 4, False), "IGEOS": (1, 2, False), "IGEOS_table": (2, 2, False), "IGEOS_bnd": (2, 2, False),
     "Noh": (1, 2, False), "Cog19": (1, 2, False), "Cog20": (1, 2, False), "Cog21": (1, 2, False),
     "EPpiston": (1, 2, False), "EHEP": (1, 2, False), "SDRZ": (1, 2, False), "Mader": (1, 2, False),
 }
@@ -67,7 +67,7 @@ TOL = {
     "Cog20": 1e-9,         # (every case violates: finding cog20-shock-location)
     "Cog21": 1e-8,         # measured 2.7e-12 (4th-order difference of r ~ t^-2)
     "BBNoh": 1e-7,         # Newton tolerance 1e-10; measured 2.2e-15 (default state and reduced oracle rhIC)
-    "IGEOS": 1e-8, "IGEOS_table": 1e-8,     # measured 7.4e-12 (bisection on p* to 2e-12), LeBlanc 1.8e-10
+    "IGEOS": 1e-8, "IGEOS_table": 1e-8, "IGEOS_bnd": 1e-8,     # measured 7.4e-12 (bisection on p* to 2e-12), LeBlanc 1.8e-10
     "GenEOS": 6e-2, "GenEOS_table": 6e-2,   # class C: p-u curves tabulated at 501 points and interpolated linearly; measured 6.0e-3 (LeBlanc:
                                             # the star pressure lies inside the first interval of the shock table), 1.6e-3 otherwise
     "EPpiston": 1e-9,      # measured 3.2e-15 (overdriven vectors: 6.0e-6, finding ep-piston-overdriven-not-rejected)
